@@ -73,7 +73,7 @@ def iter_cases(spec):
         yield "r%d" % i, rng, gen.gen_program(rng)
 
 
-def run_generic(spec, judge, config_fn=None, max_viol=8):
+def run_generic(spec, judge, config_fn=None, max_viol=8, on_undecidable=None):
     """judge(acc, case, prog, cfg, rng) -> list of findings (dict with key/what/grade)."""
     acc = Acc()
     if "replay" in spec:
@@ -96,6 +96,11 @@ def run_generic(spec, judge, config_fn=None, max_viol=8):
             acc.count("build_exceptions")
             acc.observations.append("build exception %r (%s)" % (case.outcome[1], prog["meta"]))
             return
+        if on_undecidable is not None and not case.decidable and case.rec is not None:
+            for f in on_undecidable(acc, case, prog, cfg) or []:
+                acc.count("violated_items")
+                if len(acc.violations) < max_viol:
+                    acc.violations.append(driver.strip_witness(prog, cfg, f))
         if case.outcome[0] == "exc":
             acc.count("solve_exceptions:" + type(case.outcome[1]).__name__)
             return
